@@ -13,7 +13,7 @@ import (
 )
 
 func init() {
-	props["C08"] = &propDef{run: runC08, explanation: "Partial: end-to-end acceptance of client-built requests and 'yields the requested document' are behavioural and NOT decided. Decided statically (necessary conditions): (X1) each builder signs / serialises values of exactly the named types the parser decodes into, so member names agree by construction; (X2) the client's signer-header whitelist equals the parser's ({alg,kid}); (P1) in every builder the delta hash is CalculateModelMultihash of the very delta object placed in the request, with the caller's multihash code, and that value is what is signed / put in the suffix data; all four builders return the canonical encoding of the request object; (G1) builders refuse unacceptable inputs — create: document xor patches, valid multihash code, both commitments computed with that code, distinct commitments; update/recover: key present and valid, key-reuse check against the next commitment, signer checks; deactivate: signer checks; (P2) GetAnchoredOperation rebuilds the per-type request from the parsed model field by field and returns its canonical encoding with type, suffix and anchor origin; (P3) the Sidetree client derives the reveal value from the signer's public key with the code of the operation commitment, uses the signer's key as update/recovery key, derives next commitments from the next keys with the configured algorithm and passes the signer through; (O1) createUpdatePatches never emits a remove-* patch after an add-* patch. (E1) the request-document builders (PopulateRaw*, Doc.JSONBytes) do not write through their inputs. (K3) member names of all request and signed-data models are the wire format's; the did suffix is the text after the last ':'; the raw key carries exactly one key representation on every accepting path; builder options are found by type. An unnamed anchor origin stays absent; every accepting exit of Doc.JSONBytes depends on every field of Doc; each service member is copied under conditions on itself only. All of C16 runs inside this check; With… options store their argument unconditionally; update-patch builders hand values on as they are. Fresh request body per HTTP attempt; a named anchor origin reaches the request info. One raw entry per supplied key / service / URI."}
+	props["C08"] = &propDef{run: runC08, explanation: "Partial: end-to-end acceptance of client-built requests and 'yields the requested document' are behavioural and NOT decided. Decided statically (necessary conditions): (X1) each builder signs / serialises values of exactly the named types the parser decodes into, so member names agree by construction; (X2) the client's signer-header whitelist equals the parser's ({alg,kid}); (P1) in every builder the delta hash is CalculateModelMultihash of the very delta object placed in the request, with the caller's multihash code, and that value is what is signed / put in the suffix data; all four builders return the canonical encoding of the request object; (G1) builders refuse unacceptable inputs — create: document xor patches, valid multihash code, both commitments computed with that code, distinct commitments; update/recover: key present and valid, key-reuse check against the next commitment, signer checks; deactivate: signer checks; (P2) GetAnchoredOperation rebuilds the per-type request from the parsed model field by field and returns its canonical encoding with type, suffix and anchor origin; (P3) the Sidetree client derives the reveal value from the signer's public key with the code of the operation commitment, uses the signer's key as update/recovery key, derives next commitments from the next keys with the configured algorithm and passes the signer through; (O1) createUpdatePatches never emits a remove-* patch after an add-* patch. (E1) the request-document builders (PopulateRaw*, Doc.JSONBytes) do not write through their inputs. (K3) member names of all request and signed-data models are the wire format's; the did suffix is the text after the last ':'; the raw key carries exactly one key representation on every accepting path; builder options are found by type. An unnamed anchor origin stays absent; every accepting exit of Doc.JSONBytes depends on every field of Doc; each service member is copied under conditions on itself only. All of C16 runs inside this check; With… options store their argument unconditionally; update-patch builders hand values on as they are. Fresh request body per HTTP attempt; a named anchor origin reaches the request info. One raw entry per supplied key / service / URI. C09.G1 runs here."}
 }
 
 func (c *Ctx) unmarshalTargetType(f *ssa.Function) types.Type {
@@ -1170,6 +1170,10 @@ func runC08(c *Ctx) {
 		runC16(c)
 		c.inlineFns, c.inlineHelpers = oi, oh
 	}
+	// "accepted by the parser": a request built with an anchoring window is judged on that window — outside batch mode the
+	// three parsers hand (from, expiry(from, until)) of the signed data to the time validator, in that order (C09.G1)
+	c.only(runC09, "C09.G1")
+	c.Min("C09.G1", 3)
 }
 
 // patchKindOf: which patch constructor a helper (transitively) calls: add-* / remove-*.
